@@ -75,4 +75,6 @@ TASK_QUALIFIERS = (
     QUAL_FAM_SUBMIT_ANY,
     QUAL_FAM_SUBMIT_FAIL_ALL,
     QUAL_FAM_SUBMIT_FAIL_ANY,
+    QUAL_FAM_EXPIRE_ALL,
+    QUAL_FAM_EXPIRE_ANY,
 )
